@@ -685,7 +685,7 @@ fn scenarios(thorough: bool, rng: &mut Rng) -> Vec<Scen> {
     // every code other than 0 is a refusal - in particular 10 (referral), which the crate's `non_error()` helpers accept
     // (twice, so that it meets both variants below: server goes silent / server offers the handshake all the same)
     let mut rcs: Vec<(u64, u8)> = vec![(1, 24), (2, 24), (52, 24), (80, 24), (4096, 24), (53, 24), (2147483647, 24), (4294967295, 24), (13, 1), (10, 24), (10, 24), (14, 24), (8, 24), (3, 24), (4, 24)];
-    let extra = if thorough { 40 } else { 4 };
+    let extra = if thorough { 160 } else { 4 };
     for _ in 0..extra {
         rcs.push((rng.range(1, 4294967295), 24));
     }
@@ -713,7 +713,7 @@ fn scenarios(thorough: bool, rng: &mut Rng) -> Vec<Scen> {
         vec![0xff, 0xff, 0xff, 0xff, 0xff, 0xff],
         vec![0x30, 0x84, 0xff, 0xff, 0xff, 0xff, 0x00],
     ];
-    for _ in 0..(if thorough { 60 } else { 6 }) {
+    for _ in 0..(if thorough { 200 } else { 6 }) {
         let n = rng.range(1, 24) as usize;
         garbage.push(rng.bytes(n));
     }
